@@ -3,15 +3,17 @@ import Qentem.Model.StrToNum
 import Qentem.Model.Round
 import Qentem.Proofs.StrToNumC11
 import Qentem.Proofs.StrToNumText
+import Qentem.Proofs.StrToNumSmall
 import Qentem.Proofs.NumToStrIdent
 import Qentem.Props.C09
+import Qentem.Props.C11
 /-! C11, parser half — interface definitions shared by the parser area (C09) and the formatter
 area (C10/C11).
 
 * `parseDouble` — `Digit::StringToNumber` on a whole text, followed by the conversion every caller
   applies to an integer result (`double(q.Natural)`, `double(q.Integer)`: hardware
   round-to-nearest-even, i.e. `nearestMag v 1`).
-* `Text17` — the shapes `%.17g` produces (sign is `-` or nothing, never `+`).
+* `Text17` — the shapes `%.17g` produces (sign is `-` or nothing, never `+`), defined at the end of this file.
 * `Margin32 num den` — the exact value `num/den` is at least 1/32 unit in the last place away from
   every rounding boundary (half-way point) of binary64.
 The parser-side theorem is `parseDouble t = FmtSpec.readBits64 t` for `Text17 t` under `Margin32`;
@@ -33,28 +35,6 @@ the fractional part of `A/B` is `≤ 1/2 − 1/32` or `≥ 1/2 + 1/32`. -/
 def Margin32 (num den : Nat) : Prop :=
   32 * ((roundPair num den).1 % (roundPair num den).2) + (roundPair num den).2 ≤ 16 * (roundPair num den).2 ∨
   17 * (roundPair num den).2 ≤ 32 * ((roundPair num den).1 % (roundPair num den).2)
-
-def allDigits (l : List Nat) : Prop := ∀ x ∈ l, 48 ≤ x ∧ x ≤ 57
-
-/-- the `%.17g` shapes (after trailing-zero stripping); `sg` is `[]` or `[45]` -/
-inductive Text17 : List Nat → Prop
-  /-- `[-]ddd` — an integer of at most 17 digits (`0`, or no leading zero) -/
-  | int (sg ds : List Nat) : (sg = [] ∨ sg = [45]) → allDigits ds → ds ≠ [] → (ds = [48] ∨ ds.head? ≠ some 48) →
-      ds.length ≤ 17 → Text17 (sg ++ ds)
-  /-- `[-]d…d.d…d` — integer part without leading zero, at most 17 digits in all, last digit not `0` -/
-  | fixed (sg : List Nat) (d1 : Nat) (xs ys : List Nat) : (sg = [] ∨ sg = [45]) → (49 ≤ d1 ∧ d1 ≤ 57) →
-      allDigits xs → allDigits ys → ys ≠ [] → ys.getLast? ≠ some 48 → xs.length + 1 + ys.length ≤ 17 →
-      Text17 (sg ++ d1 :: xs ++ [46] ++ ys)
-  /-- `[-]0.0…0d…d` — at most three zeros after the point, then at most 17 digits, first and last not `0` -/
-  | small (sg zs : List Nat) (d1 : Nat) (ys : List Nat) : (sg = [] ∨ sg = [45]) → (∀ z ∈ zs, z = 48) → zs.length ≤ 3 →
-      (49 ≤ d1 ∧ d1 ≤ 57) → allDigits ys → (d1 :: ys).getLast? ≠ some 48 → 1 + ys.length ≤ 17 →
-      Text17 (sg ++ [48, 46] ++ zs ++ d1 :: ys)
-  /-- `[-]d[.d…d]e±dd[d]` — scientific, at least two exponent digits -/
-  | sci (sg : List Nat) (d1 : Nat) (ys es ks : List Nat) : (sg = [] ∨ sg = [45]) → (49 ≤ d1 ∧ d1 ≤ 57) →
-      allDigits ys → ys.getLast? ≠ some 48 → 1 + ys.length ≤ 17 → (es = [43] ∨ es = [45]) → allDigits ks →
-      2 ≤ ks.length → ks.length ≤ 3 →
-      Text17 (sg ++ d1 :: (if ys = [] then [] else 46 :: ys) ++ [101] ++ es ++ ks)
-
 
 open Qentem.Props.C09 Qentem.Proofs.NumToStr Qentem.Proofs.Ident
 
@@ -167,9 +147,9 @@ theorem parse_exact_fixed (neg : Bool) (d1 : Nat) (xs ys : List Nat) (h1 : isNon
       omega
     have := realResult_exact neg (decVal (d1 :: (xs ++ ys))) (xs.length + 1 + ys.length) ys.length true t.length hv0 hv64
       (by omega) (by omega) (by simp only [if_true]; omega)
-      (fun _ => by
+      (fun _ => Or.inl ⟨by omega, by
         have : ys.length / 27 = 0 := by omega
-        rw [this]; omega)
+        rw [this]; omega⟩)
       (by simp only [if_true]; exact hm)
     simpa using this
   exact parseDouble_real t _ neg (Nat.lt_of_le_of_lt (nearestMag_le_inf _ _) (by decide)) hstr
@@ -218,7 +198,7 @@ theorem parse_exact_of_realResult (t : List Nat) (neg : Bool) (v n X : Nat) (FLA
     (hv0 : 0 < v) (hv : v < 2 ^ 64) (hn19 : n ≤ 19) (hX : X < 2 ^ 31)
     (hlink : ∃ c, 0 < c ∧ num = (if FLAG then v else v * 10 ^ X) * c ∧ den = (if FLAG then 10 ^ X else 1) * c)
     (hrange : if FLAG then X ≤ n + 324 else X + n ≤ 309)
-    (hcond : FLAG = true → 2 ^ (X / 27 + 1) ≤ v)
+    (hcond : FLAG = true → (X < 216 ∧ 2 ^ (X / 27) ≤ 2 * v) ∨ 2 ^ (X / 27 + 1) ≤ v)
     (hm : Margin32 num den) :
     parseDouble t = FmtSpec.readBits64 t := by
   obtain ⟨c, hc, hnum, hden⟩ := hlink
@@ -357,6 +337,8 @@ theorem parse_exact_sci (neg : Bool) (d1 : Nat) (ys : List Nat) (eneg : Bool) (k
                 (netExp false (decVal ks) eneg ys.length).1 ≤ 1 + ys.length + 324
               else (netExp false (decVal ks) eneg ys.length).1 + (1 + ys.length) ≤ 309)
     (hcond : (netExp false (decVal ks) eneg ys.length).2 = true →
+      ((netExp false (decVal ks) eneg ys.length).1 < 216 ∧
+        2 ^ ((netExp false (decVal ks) eneg ys.length).1 / 27) ≤ 2 * decVal (d1 :: ys)) ∨
       2 ^ ((netExp false (decVal ks) eneg ys.length).1 / 27 + 1) ≤ decVal (d1 :: ys)) :
     parseDouble (FmtSpec.signed neg ([d1] ++ (if ys = [] then [] else 46 :: ys) ++ 101 :: (if eneg then 45 else 43) :: ks)) =
       FmtSpec.readBits64 (FmtSpec.signed neg ([d1] ++ (if ys = [] then [] else 46 :: ys) ++ 101 :: (if eneg then 45 else 43) :: ks)) := by
@@ -466,5 +448,220 @@ theorem parse_exact_int (neg : Bool) (ds : List Nat) (hds : AllDigits ds) (hne :
       simp only [hsub]
       have hoff : 0 + 2 + xs.length = t.length := by simp at htl; omega
       simp [hoff]
+
+/-- **`%.17g` small fixed notation** (`0.000ddd`, up to eight zeros after the point): under the margin
+the parser returns the correctly rounded double. -/
+theorem parse_exact_small (neg : Bool) (zs : List Nat) (d1 : Nat) (ys : List Nat) (hz : ∀ z ∈ zs, z = 48)
+    (hzl : zs.length ≤ 8) (h1 : isNonZeroDigit d1 = true) (hys : AllDigits ys) (hlen : ys.length ≤ 16)
+    (hm : Margin32 (decVal (d1 :: ys)) (10 ^ (zs.length + 1 + ys.length))) :
+    parseDouble (FmtSpec.signed neg ([48] ++ 46 :: (zs ++ d1 :: ys))) =
+      FmtSpec.readBits64 (FmtSpec.signed neg ([48] ++ 46 :: (zs ++ d1 :: ys))) := by
+  have hdig := isNonZeroDigit_isDigit h1
+  have hall : AllDigits (d1 :: ys) := by
+    intro y hy
+    rcases List.mem_cons.1 hy with h | h
+    · subst h; exact hdig
+    · exact hys y h
+  have hzd : AllDigits zs := fun z hzm => by rw [hz z hzm]; decide
+  -- reference side
+  have hrc : readCore neg ([48] ++ 46 :: (zs ++ d1 :: ys)) =
+      some (neg, decVal (d1 :: ys), 10 ^ (zs.length + 1 + ys.length)) := by
+    have := readCore_plain neg [48] (zs ++ d1 :: ys) (by simp) (by intro c hc; simp at hc; subst hc; decide)
+      (allDigits_fmt (fun y hy => by
+        rcases List.mem_append.1 hy with h | h
+        · exact hzd y h
+        · exact hall y h))
+    have hne : zs ++ d1 :: ys ≠ [] := by simp
+    simp only [hne, if_false] at this
+    rw [this, digitsValue_eq]
+    have e1 : decVal ([48] ++ (zs ++ d1 :: ys)) = decVal (d1 :: ys) := by
+      rw [show [48] ++ (zs ++ d1 :: ys) = (48 :: zs) ++ d1 :: ys by simp]
+      exact decVal_zeros (48 :: zs) (d1 :: ys) (fun y hy => by
+        rcases List.mem_cons.1 hy with h | h
+        · exact h
+        · exact hz y h)
+    rw [e1]
+    have hl : (zs ++ d1 :: ys).length = zs.length + 1 + ys.length := by simp; omega
+    rw [hl]
+  rw [readBits64_signed neg _ 48 (46 :: (zs ++ d1 :: ys)) (by simp) (by decide) _ _ (Nat.pow_pos (by decide)) hrc]
+  -- parser side
+  rw [signed_eq]
+  have hsl : (sgOf neg).length ≤ 1 := by rw [sgOf_len]; cases neg <;> simp [b2n]
+  generalize ht : sgOf neg ++ ([48] ++ 46 :: (zs ++ d1 :: ys)) = t
+  have ht' : t = sgOf neg ++ ([48, 46] ++ zs ++ d1 :: ys) := by rw [← ht]; simp
+  have htl : t.length = (sgOf neg).length + 2 + zs.length + 1 + ys.length := by rw [ht']; simp; omega
+  have he : t.length < 2 ^ 32 := by omega
+  have hu : unitsAt t t.length 0 (sgOf neg ++ ([48, 46] ++ zs ++ d1 :: ys)) := by rw [← ht']; exact unitsAt_self t
+  have hu' := (unitsAt_append t t.length (sgOf neg) _ 0).1 hu
+  have hu1 : unitsAt t t.length 0 (sgOf neg ++ [48]) :=
+    (unitsAt_append t t.length (sgOf neg) [48] 0).2 ⟨hu'.1, hu'.2.1, trivial⟩
+  have hQ : 0 + (sgOf neg).length + 2 + zs.length + 1 + ys.length = t.length := by omega
+  have hstr : strToNum t 0 t.length = some ⟨.real, nearestMag (decVal (d1 :: ys)) (10 ^ (zs.length + 1 + ys.length)) |||
+      (if neg then 0x8000000000000000 else 0), t.length⟩ := by
+    rw [strToNum_after_sign t 0 t.length (sgOf neg) 48 (sgOf_cases neg) hu1 (by decide), sgOf_dec]
+    rw [afterSign_small t t.length neg (0 + (sgOf neg).length) zs d1 ys he hz h1 hys (by omega) hu'.2 (Or.inl hQ)]
+    rw [finishReal_end t t.length neg _ _ _ _ true true _ (by omega) (Or.inl hQ) (1 + ys.length) (zs.length + 1 + ys.length)
+      (by simp only [b2n, Bool.not_true, Bool.false_and, Bool.false_eq_true, if_false]
+          rw [sub32_sub32 _ _ 0 (by omega) (by omega)]; omega)
+      (by simp only [if_true]
+          rw [sub32_sub32 _ _ 1 (by omega) (by omega), add32_eq _ _ (by omega)]; omega)
+      (by omega)]
+    have hne : netExp true 0 false (zs.length + 1 + ys.length) = (zs.length + 1 + ys.length, true) := by
+      unfold netExp; simp
+    rw [hne, hQ]
+    have hv0 : 0 < decVal (d1 :: ys) := Nat.lt_of_lt_of_le (Nat.pow_pos (by decide)) (decVal_ge d1 ys h1)
+    have hvhi := decVal_lt_pow (d1 :: ys) hall
+    have hv64 : decVal (d1 :: ys) < 2 ^ 64 :=
+      Nat.lt_of_lt_of_le hvhi (Nat.le_trans (Nat.pow_le_pow_right (by decide) (by simp; omega)) (by decide : (10 : Nat) ^ 19 ≤ 2 ^ 64))
+    have := realResult_exact neg (decVal (d1 :: ys)) (1 + ys.length) (zs.length + 1 + ys.length) true t.length hv0 hv64
+      (by omega) (by omega) (by simp only [if_true]; omega)
+      (fun _ => Or.inl ⟨by omega, by
+        have : (zs.length + 1 + ys.length) / 27 = 0 := by omega
+        rw [this]; omega⟩)
+      (by simp only [if_true]; exact hm)
+    simpa using this
+  exact parseDouble_real t _ neg (Nat.lt_of_le_of_lt (nearestMag_le_inf _ _) (by decide)) hstr
+
+/-! ### The class: `%.17g` texts
+
+`Text17 t` — the shapes `FmtSpec.generalBody … 17` produces after trailing-zero stripping, with the
+side conditions the parser-side proof needs for the scientific shape (finite range, and for a
+negative net exponent a mantissa that is not tiny: `2^(X/27) ≤ 2·v` when `X < 216`, else
+`2^(X/27+1) ≤ v`). `fixed`/`small`/`int` need no side condition. -/
+inductive Text17 : List Nat → Prop
+  /-- `[-]ddd` — an integer of at most 17 digits (`0`, or no leading zero) -/
+  | int (neg : Bool) (ds : List Nat) : AllDigits ds → ds ≠ [] → (ds = [48] ∨ ds.head? ≠ some 48) → ds.length ≤ 17 →
+      Text17 (FmtSpec.signed neg ds)
+  /-- `[-]d…d.d…d` — no leading zero, at most 17 digits, the fraction is not the single digit `0` -/
+  | fixed (neg : Bool) (d1 : Nat) (xs ys : List Nat) : isNonZeroDigit d1 = true → AllDigits xs → AllDigits ys → ys ≠ [] →
+      ys ≠ [48] → xs.length + 1 + ys.length ≤ 17 → Text17 (FmtSpec.signed neg (d1 :: xs ++ [46] ++ ys))
+  /-- `[-]0.0…0d…d` — at most eight zeros after the point, then at most 17 digits, the first not `0` -/
+  | small (neg : Bool) (zs : List Nat) (d1 : Nat) (ys : List Nat) : (∀ z ∈ zs, z = 48) → zs.length ≤ 8 →
+      isNonZeroDigit d1 = true → AllDigits ys → 1 + ys.length ≤ 17 →
+      Text17 (FmtSpec.signed neg ([48] ++ 46 :: (zs ++ d1 :: ys)))
+  /-- `[-]d[.d…d]e±k…` — scientific: in range, mantissa not tiny when the net exponent is negative -/
+  | sci (neg : Bool) (d1 : Nat) (ys : List Nat) (eneg : Bool) (ks : List Nat) : isNonZeroDigit d1 = true → AllDigits ys →
+      ys ≠ [48] → 1 + ys.length ≤ 17 → AllDigits ks → ks ≠ [] → ks.length ≤ 8 →
+      (if (netExp false (decVal ks) eneg ys.length).2 then
+          (netExp false (decVal ks) eneg ys.length).1 ≤ 1 + ys.length + 324
+        else (netExp false (decVal ks) eneg ys.length).1 + (1 + ys.length) ≤ 309) →
+      ((netExp false (decVal ks) eneg ys.length).2 = true →
+        ((netExp false (decVal ks) eneg ys.length).1 < 216 ∧
+          2 ^ ((netExp false (decVal ks) eneg ys.length).1 / 27) ≤ 2 * decVal (d1 :: ys)) ∨
+        2 ^ ((netExp false (decVal ks) eneg ys.length).1 / 27 + 1) ≤ decVal (d1 :: ys)) →
+      Text17 (FmtSpec.signed neg ([d1] ++ (if ys = [] then [] else 46 :: ys) ++ 101 :: (if eneg then 45 else 43) :: ks))
+
+/-- the margin hypothesis on a text, through the reference reader -/
+def MarginText (t : List Nat) : Prop :=
+  ∀ neg num den, FmtSpec.readDecimal t = some (neg, num, den) → num ≠ 0 → Margin32 num den
+
+theorem readDecimal_of_core (neg : Bool) (body : List Nat) (x : Nat) (rest : List Nat) (hbody : body = x :: rest)
+    (hx : 48 ≤ x ∧ x ≤ 57) (r : Bool × Nat × Nat) (hrc : readCore neg body = some r) :
+    FmtSpec.readDecimal (FmtSpec.signed neg body) = some r := by
+  rw [readDecimal_signed neg body (by intro r' h; rw [hbody] at h; simp only [List.cons.injEq] at h; omega), hrc]
+
+/-- **C11, parser half, for the class `Text17`**: on every `%.17g`-shaped text whose value keeps
+1/32 ulp away from the rounding boundaries, `Digit::StringToNumber` (followed by the callers'
+integer→double conversion) returns exactly the correctly rounded double of the reference reader. -/
+theorem parse_exact17 (t : List Nat) (ht : Text17 t) (hm : MarginText t) : parseDouble t = FmtSpec.readBits64 t := by
+  cases ht with
+  | int neg ds hds hne hlead hlen => exact parse_exact_int neg ds hds hne hlead hlen
+  | fixed neg d1 xs ys h1 hxs hys hy0 hy48 hlen =>
+    have hdig := isNonZeroDigit_isDigit h1
+    have hrc : readCore neg (d1 :: xs ++ [46] ++ ys) = some (neg, decVal (d1 :: xs ++ ys), 10 ^ ys.length) := by
+      have := readCore_plain neg (d1 :: xs) ys (by simp) (allDigits_fmt (fun y hy => by
+        rcases List.mem_cons.1 hy with h | h
+        · subst h; exact hdig
+        · exact hxs y h)) (allDigits_fmt hys)
+      simp only [hy0, if_false] at this
+      rw [← digitsValue_eq]
+      simpa using this
+    have hrd := readDecimal_of_core neg _ d1 (xs ++ [46] ++ ys) (by simp) (by simp [isDigit] at hdig; omega) _ hrc
+    have hv0 : decVal (d1 :: xs ++ ys) ≠ 0 := by
+      have h2 := decVal_ge d1 (xs ++ ys) h1
+      have h3 : 0 < 10 ^ (xs ++ ys).length := Nat.pow_pos (by decide)
+      have h4 : decVal (d1 :: xs ++ ys) = decVal (d1 :: (xs ++ ys)) := by simp
+      omega
+    exact parse_exact_fixed neg d1 xs ys h1 hxs hys hy0 hy48 (by omega) (hm _ _ _ hrd hv0)
+  | small neg zs d1 ys hz hzl h1 hys hlen =>
+    have hdig := isNonZeroDigit_isDigit h1
+    have hall : AllDigits (d1 :: ys) := by
+      intro y hy
+      rcases List.mem_cons.1 hy with h | h
+      · subst h; exact hdig
+      · exact hys y h
+    have hzd : AllDigits zs := fun z hzm => by rw [hz z hzm]; decide
+    have hrc : readCore neg ([48] ++ 46 :: (zs ++ d1 :: ys)) =
+        some (neg, decVal (d1 :: ys), 10 ^ (zs.length + 1 + ys.length)) := by
+      have := readCore_plain neg [48] (zs ++ d1 :: ys) (by simp) (by intro c hc; simp at hc; subst hc; decide)
+        (allDigits_fmt (fun y hy => by
+          rcases List.mem_append.1 hy with h | h
+          · exact hzd y h
+          · exact hall y h))
+      have hne : zs ++ d1 :: ys ≠ [] := by simp
+      simp only [hne, if_false] at this
+      rw [this, digitsValue_eq]
+      have e1 : decVal ([48] ++ (zs ++ d1 :: ys)) = decVal (d1 :: ys) := by
+        rw [show [48] ++ (zs ++ d1 :: ys) = (48 :: zs) ++ d1 :: ys by simp]
+        exact decVal_zeros (48 :: zs) (d1 :: ys) (fun y hy => by
+          rcases List.mem_cons.1 hy with h | h
+          · exact h
+          · exact hz y h)
+      rw [e1]
+      have hl : (zs ++ d1 :: ys).length = zs.length + 1 + ys.length := by simp; omega
+      rw [hl]
+    have hrd := readDecimal_of_core neg _ 48 (46 :: (zs ++ d1 :: ys)) (by simp) (by decide) _ hrc
+    have hv0 : decVal (d1 :: ys) ≠ 0 := by
+      have := decVal_ge d1 ys h1
+      have : 0 < 10 ^ ys.length := Nat.pow_pos (by decide)
+      omega
+    exact parse_exact_small neg zs d1 ys hz hzl h1 hys (by omega) (hm _ _ _ hrd hv0)
+  | sci neg d1 ys eneg ks h1 hys hy48 hlen hks hk0 hk8 hrange hcond =>
+    have hdig := isNonZeroDigit_isDigit h1
+    have hrc := readCore_exp neg [d1] ys ks eneg (by simp) (allDigits_fmt (fun y hy => by simp at hy; subst hy; exact hdig))
+      (allDigits_fmt hys) hk0 (allDigits_fmt hks)
+    have hrc' : readCore neg ([d1] ++ (if ys = [] then [] else 46 :: ys) ++ 101 :: (if eneg then 45 else 43) :: ks) =
+        some (neg, (if eneg then decVal (d1 :: ys) else decVal (d1 :: ys) * 10 ^ decVal ks),
+          (if eneg then 10 ^ ys.length * 10 ^ decVal ks else 10 ^ ys.length)) := by
+      rw [hrc]
+      cases eneg <;> simp [digitsValue_eq]
+    have hrd := readDecimal_of_core neg _ d1 ((if ys = [] then [] else 46 :: ys) ++ 101 :: (if eneg then 45 else 43) :: ks)
+      (by simp) (by simp [isDigit] at hdig; omega) _ hrc'
+    have hv0 : 0 < decVal (d1 :: ys) := Nat.lt_of_lt_of_le (Nat.pow_pos (by decide)) (decVal_ge d1 ys h1)
+    have hnum0 : (if eneg then decVal (d1 :: ys) else decVal (d1 :: ys) * 10 ^ decVal ks) ≠ 0 := by
+      split
+      · omega
+      · exact Nat.ne_of_gt (Nat.mul_pos hv0 (Nat.pow_pos (by decide)))
+    exact parse_exact_sci neg d1 ys eneg ks h1 hys hy48 (by omega) hks hk0 hk8 (hm _ _ _ hrd hnum0) hrange hcond
+
+/-! ### Towards `ParsesExactly17` (Props/C11.lean)
+
+`ParsesExactly17 parseDouble` is: for every finite `b` with `format17 b = .ok t`,
+`parseDouble t = FmtSpec.readBits64 t`. `parse_exact17` proves the conclusion from two facts about
+`t` alone; what remains is formatter-side (notes/c11-interface.md): every `%.17g` text is a `Text17`
+and keeps the 1/32-ulp margin. -/
+open Qentem.NumToStr in
+theorem parsesExactly17_partial (b : Nat) (t : List Nat) (_hb : Qentem.Props.C11.isFinite64 b)
+    (_hf : format17 b = .ok t) (ht : Text17 t) (hm : MarginText t) :
+    parseDouble t = FmtSpec.readBits64 t := parse_exact17 t ht hm
+
+open Qentem.NumToStr in
+/-- the reduction: shape + margin for every formatted text give the parser half of C11, and with it
+the whole round trip through the real parser -/
+theorem roundtrip17_of_formatter
+    (h : ∀ b t, Qentem.Props.C11.isFinite64 b → format17 b = .ok t → Text17 t ∧ MarginText t) :
+    Qentem.Props.C11.ParsesExactly17 parseDouble ∧ Qentem.Props.C11.RoundTrip17 parseDouble := by
+  have hp : Qentem.Props.C11.ParsesExactly17 parseDouble := fun b t hb hf =>
+    parse_exact17 t (h b t hb hf).1 (h b t hb hf).2
+  exact ⟨hp, Qentem.Props.C11.roundtrip17_of_parser parseDouble hp⟩
+
+/-- instances (kernel evaluation, tests): the `%.17g` texts of 0.1, 1/3, 5e-324, 1.7976931348623157e308,
+123456.78900000001 parse back to their bit patterns -/
+example : parseDouble [48,46,49,48,48,48,48,48,48,48,48,48,48,48,48,48,48,48,49] = some 0x3FB999999999999A := by decide +kernel
+example : parseDouble [48,46,51,51,51,51,51,51,51,51,51,51,51,51,51,51,51,51,49] = some 0x3FD5555555555555 := by decide +kernel
+example : parseDouble [52,46,57,52,48,54,53,54,52,53,56,52,49,50,52,54,53,52,101,45,51,50,52] = some 1 := by decide +kernel
+example : parseDouble [49,46,55,57,55,54,57,51,49,51,52,56,54,50,51,49,53,55,101,43,51,48,56] = some 0x7FEFFFFFFFFFFFFF := by decide +kernel
+example : Text17 [51,46,49,52] := Text17.fixed false 51 [] [49,52] (by decide) (by intro y hy; simp at hy)
+  (by intro y hy; simp at hy; rcases hy with h | h <;> subst h <;> decide) (by simp) (by simp) (by simp)
 
 end Qentem.Props.C11P
